@@ -10,12 +10,14 @@ import (
 	"strings"
 	"sync"
 	"testing"
+	"time"
 
 	"github.com/ava-labs/avalanchego/x/merkledb"
 
 	"github.com/ava-labs/hypersdk/chain"
 	"github.com/ava-labs/hypersdk/fees"
 	ifees "github.com/ava-labs/hypersdk/internal/fees"
+	hkeys "github.com/ava-labs/hypersdk/keys"
 	"github.com/ava-labs/hypersdk/state"
 	"github.com/ava-labs/hypersdk/zzverif/chainfx"
 	"github.com/ava-labs/hypersdk/zzverif/kit"
@@ -105,7 +107,7 @@ var startOrder struct {
 
 func TestC01(t *testing.T) {
 	r := kit.Start(t, "C01", "exploration")
-	r.Rule("case = random world (4..12 keys incl. pairs differing only in chunk suffix, 3..6 sponsors, random parent state) + 1..3 consecutive blocks of 0..N random transactions (1..4 programmable actions with overlapping read/write/allocate declarations, reads, writes, deletes, re-creates, undeclared accesses, oversize writes, explicit failures; occasionally an underfunded sponsor). Every block is re-parsed and executed under the sequential baseline (1,1,serial) and several sampled (cores,fetch,sigWorkers) configurations with schedule perturbation at the executor hook points; accept/reject, post-state root, marshalled results, unit prices and units consumed must be equal across all runs and equal to an independent big-int/map model applying the transactions one at a time. Non-trivial = block with >=2 transactions and at least one conflicting pair; distinct = distinct conflict graph.")
+	r.Rule("case = random world (4..12 keys incl. pairs differing only in chunk suffix, 3..6 sponsors, random parent state) + 1..3 consecutive blocks of 0..N random transactions (1..4 programmable actions with overlapping read/write/allocate declarations, reads, writes, deletes, re-creates, undeclared accesses, oversize writes, explicit failures; occasionally an underfunded sponsor). In ~40% of the blocks a sponsor whose ability to pay changes INSIDE the block is interleaved: an account with no balance entry (or a leftover below the fee) in the parent state is funded by an earlier transaction with exactly fee / fee+1 / fee-1 / the fees of two later transactions, or is drained by another sponsor or by its own earlier transaction to exactly fee / fee-1 / 0 / deleted (amounts aimed with the model's fee formula; the model's sequential verdict decides valid/invalid). In ~40% of the blocks a pattern 'slow owner L of keys a,b; 4..12 slow readers of b; T reads a and rewrites b' is appended (b is read slowly from the parent state in every run, readers share sponsors) so that T is enqueued while readers of the previous owner are outstanding; in a third a 'writer, fillers, slow reader, writer' pattern. Every block is re-parsed and executed under the sequential baseline (1,1,serial) and several sampled (cores,fetch,sigWorkers) configurations with schedule perturbation at the executor hook points; accept/reject, post-state root, marshalled results, unit prices and units consumed must be equal across all runs and equal to an independent big-int/map model applying the transactions one at a time. Non-trivial = block with >=2 transactions and at least one conflicting pair; distinct = distinct conflict graph.")
 	r.Assume("unit prices of a block are taken from the real fee manager (its rule is judged by C13)", "ProgAction/SpyAuth stand in for VM actions/auth; real ed25519 auth is mixed in")
 	ctx := context.Background()
 	p := hooks.NewPerturb(r.Rand("hooks"))
@@ -130,6 +132,7 @@ func TestC01(t *testing.T) {
 	orders := map[string]struct{}{}
 	for ci := 0; ci < nCases && r.Violations() < 5; ci++ {
 		w := chainfx.NewWorld(rng, 4+rng.IntN(9), 3+rng.IntN(3), rng.IntN(3) == 0, chainfx.LooseRules())
+		w.AddFresh(2) // sponsors without any balance entry in the parent state: funded / drained inside a block
 		poor := -1
 		if rng.IntN(7) == 0 {
 			poor = rng.IntN(len(w.Balances))
@@ -159,6 +162,47 @@ func TestC01(t *testing.T) {
 				}
 				txs = append(txs, tx)
 			}
+			prices, err := nextPrices(ctx, fx, parentView, ts)
+			if err != nil {
+				t.Fatalf("prices: %v", err)
+			}
+			var crossKinds []string
+			if rng.IntN(5) < 2 {
+				// a sponsor whose ability to pay changes INSIDE the block: funded (exactly / one short / one
+				// above the fee) or drained by an earlier transaction; interleaved with the random transactions
+				for fi := range w.Fresh {
+					if fi > 0 && rng.IntN(3) != 0 {
+						continue
+					}
+					var rich []int
+					for i := range w.Factories {
+						if i != poor {
+							rich = append(rich, i)
+						}
+					}
+					pat, kind, err := w.GenSponsorCross(rng, g, prices, ts, fi, rich[rng.IntN(len(rich))], rich[rng.IntN(len(rich))])
+					if err != nil {
+						t.Fatalf("sponsor-cross pattern: %v", err)
+					}
+					txs = chainfx.Interleave(rng, txs, pat)
+					crossKinds = append(crossKinds, kind)
+					r.Count("sponsor_cross/"+kind, 1)
+				}
+			}
+			slowKeys := map[string]time.Duration{}
+			if rng.IntN(5) < 2 && len(w.Factories) >= 3 {
+				// slow owner of two keys, many readers of one of them, then a transaction that reads the
+				// first and rewrites the second key: the writer must wait for every outstanding reader
+				pat, b, err := rdrPattern(rng, w, ts, 4+rng.IntN(9))
+				if err != nil {
+					t.Fatalf("pattern: %v", err)
+				}
+				if pat != nil {
+					txs = append(txs, pat...)
+					slowKeys[string(b)] = time.Duration(200+rng.IntN(1500)) * time.Microsecond
+					r.Count("owner_readers_readwriter_patterns", 1)
+				}
+			}
 			if rng.IntN(3) == 0 && len(w.Factories) >= 3 {
 				// writer, fillers, slow reader, writer on one key: the reader hangs off a writer that
 				// has usually finished when it is queued and is followed at once by the next writer
@@ -172,10 +216,6 @@ func TestC01(t *testing.T) {
 			blk, err := fx.Block(parent, parentView, ts, txs)
 			if err != nil {
 				t.Fatalf("block: %v", err)
-			}
-			prices, err := nextPrices(ctx, fx, parentView, ts)
-			if err != nil {
-				t.Fatalf("prices: %v", err)
 			}
 			pm := model.Clone()
 			pred := pm.ApplyBlock(txs, prices)
@@ -208,7 +248,9 @@ func TestC01(t *testing.T) {
 					// every run except the sequential baseline reads the parent through a slow view
 					var pv merkledb.View = parentView
 					if len(outs) > 0 {
-						pv = &slowView{View: parentView, salt: rng.Uint64()}
+						pv = &slowView{View: parentView, salt: rng.Uint64(), slow: slowKeys}
+					} else if len(slowKeys) > 0 {
+						pv = &slowView{View: parentView, slow: slowKeys, only: true}
 					}
 					r.Guard("Chain.Execute", wit(name), func() { o = execOnce(ctx, fx, cfg, blk, pv) })
 					r.Eval()
@@ -228,6 +270,9 @@ func TestC01(t *testing.T) {
 					}
 				}
 				r.Count("blocks_invalid", 1)
+				if len(crossKinds) > 0 {
+					r.Count("sponsor_cross_blocks_invalid", 1)
+				}
 			} else {
 				for i, o := range outs {
 					if o.err != nil {
@@ -240,6 +285,9 @@ func TestC01(t *testing.T) {
 				}
 				r.Count("blocks_valid", 1)
 				r.Count("txs_executed", len(txs))
+				if len(crossKinds) > 0 {
+					r.Count("sponsor_cross_blocks_valid", 1)
+				}
 			}
 			// oracle 2: all configurations and schedules agree
 			for i := 1; i < len(outs); i++ {
@@ -258,7 +306,7 @@ func TestC01(t *testing.T) {
 			}
 			if len(txs) >= 2 && conflict {
 				r.Distinct(shape)
-				r.Sample(map[string]any{"txs": len(txs), "model_invalid": pred.Invalid, "first_txs": wit("").Txs[:min(3, len(txs))]})
+				r.Sample(map[string]any{"txs": len(txs), "model_invalid": pred.Invalid, "sponsor_cross": crossKinds, "first_txs": wit("").Txs[:min(3, len(txs))]})
 			}
 			if pred.Invalid != "" || base.err != nil {
 				break
@@ -406,4 +454,85 @@ func wrwPattern(rng *rand.Rand, w *chainfx.World, ts int64, n int) ([]*chain.Tra
 		return nil, err
 	}
 	return out, nil
+}
+
+// rdrPattern returns L, R_1..R_n, T: L (slow) writes keys a and b and so owns both; every R_i only
+// READS b (slowly, echoing what it saw); T reads a and rewrites (or deletes) b with a value different
+// from L's. T is a reader of L (through a) and a writer of a key owned by L (b), so it must wait for
+// every R_i that has not executed yet; an R_i that runs after T observes T's value instead of L's.
+// L and T have their own sponsors; the readers share the remaining sponsors (readers with the same
+// sponsor run one after the other, so late readers are still outstanding when T becomes runnable).
+func rdrPattern(rng *rand.Rand, w *chainfx.World, ts int64, n int) ([]*chain.Transaction, []byte, error) {
+	var cands [][]byte
+	for _, k := range w.Keys {
+		if c, ok := hkeys.MaxChunks(k); ok && c >= 1 {
+			cands = append(cands, k)
+		}
+	}
+	if len(cands) < 2 {
+		return nil, nil, nil
+	}
+	ai := rng.IntN(len(cands))
+	bi := rng.IntN(len(cands) - 1)
+	if bi >= ai {
+		bi++
+	}
+	a, b := cands[ai], cands[bi]
+	if bytes.Equal(a, b) {
+		return nil, nil, nil
+	}
+	perm := rng.Perm(len(w.Factories))
+	var nonce uint64 = 1 << 41
+	var out []*chain.Transaction
+	add := func(sponsor int, pa *chainfx.ProgAction) error {
+		nonce += 1 + uint64(rng.IntN(1<<20))
+		pa.Nonce = nonce<<20 + uint64(rng.IntN(1<<20))
+		pa.Start, pa.End = -1, -1
+		pa.Canonicalize()
+		base := chain.Base{Timestamp: (ts/1000 + 2) * 1000, ChainID: w.Rules.ChainID, MaxFee: 1 << 50}
+		tx, err := chainfx.Tx(base, []chain.Action{pa}, w.Factories[sponsor])
+		if err == nil {
+			out = append(out, tx)
+		}
+		return err
+	}
+	vl := []byte{byte('p' + rng.IntN(4)), byte('a' + rng.IntN(4))}
+	vt := append([]byte{}, vl...)
+	vt[0]++ // differs from L's value
+	aperm := state.Write
+	if rng.IntN(2) == 0 {
+		aperm = state.All
+	}
+	if err := add(perm[0], &chainfx.ProgAction{
+		Keys: []chainfx.KeyDecl{{Key: a, Perm: aperm | state.Allocate}, {Key: b, Perm: state.All}},
+		Ops: []chainfx.Op{
+			{Kind: chainfx.OpYield, N: uint32(200 + rng.IntN(3000))},
+			{Kind: chainfx.OpPut, Key: a, Val: []byte{byte('A' + rng.IntN(4))}},
+			{Kind: chainfx.OpPut, Key: b, Val: vl},
+		},
+	}); err != nil {
+		return nil, nil, err
+	}
+	for i := 0; i < n; i++ {
+		if err := add(perm[2+rng.IntN(len(perm)-2)], &chainfx.ProgAction{
+			Keys: []chainfx.KeyDecl{{Key: b, Perm: state.Read}},
+			Ops: []chainfx.Op{
+				{Kind: chainfx.OpYield, N: uint32(rng.IntN(400))},
+				{Kind: chainfx.OpGet, Key: b},
+			},
+		}); err != nil {
+			return nil, nil, err
+		}
+	}
+	tw := chainfx.Op{Kind: chainfx.OpPut, Key: b, Val: vt}
+	if rng.IntN(3) == 0 {
+		tw = chainfx.Op{Kind: chainfx.OpDel, Key: b}
+	}
+	if err := add(perm[1], &chainfx.ProgAction{
+		Keys: []chainfx.KeyDecl{{Key: a, Perm: state.Read}, {Key: b, Perm: state.All}},
+		Ops:  []chainfx.Op{{Kind: chainfx.OpGet, Key: a}, tw},
+	}); err != nil {
+		return nil, nil, err
+	}
+	return out, b, nil
 }
